@@ -235,7 +235,13 @@ func r07a(c *an.Ctx) {
 	an.Instrs(fn, func(in ssa.Instruction) {
 		if bo, ok := in.(*ssa.BinOp); ok && bo.Op == token.ADD {
 			if k, isC := an.ConstInt(bo.Y); isC && k == 1 {
-				adds = append(adds, bo)
+				// increments of the value parsed from the pair (a loop counter is not one)
+				for _, l := range an.BackSlice(bo.X, an.SliceOpts{LeafCall: func(n string, _ *ssa.Call) bool { return n == "strconv.ParseUint" }}) {
+					if l.Kind == "call" {
+						adds = append(adds, bo)
+						break
+					}
+				}
 			}
 		}
 	})
